@@ -46,6 +46,8 @@ def coverage(prop, executed, rejected, tier):
         "graphs_per_history": {k[18:]: int(v) for k, v in sorted(total.items()) if k.startswith("graphs_in_history:")},
         "op_histogram": {k[3:]: int(v) for k, v in sorted(total.items()) if k.startswith("op:")},
         "graph_object_forms": {k[11:]: int(v) for k, v in sorted(total.items()) if k.startswith("graph-form:")},
+        "histories_with_numpy_errors_raised": int(total.get("env:numpy-errors-raise", 0)),
+        "histories_with_warnings_as_errors": int(total.get("env:warnings-as-errors", 0)),
         "histories_with_debug_logging": int(total.get("env:debug-logging", 0)),
         "graphs_with_3d_positions": int(total.get("graphs_with_3d_positions", 0)),
         "faults_armed_fired": {k: int(v) for k, v in sorted(total.items()) if k.startswith("fault:")},
